@@ -117,6 +117,7 @@ func main() {
 	genProxy()
 	genProxyCFG()
 	genUpstream()
+	genDiscovery()
 }
 
 type lines struct{ b strings.Builder }
